@@ -106,10 +106,17 @@ def evaluate(cfg):
             last_stage[k] = stage
         # ---- independent depletion estimate ----------------------------------------------------------
         c = crops[k]
-        dr, taw, above = ref_root_zone(tr.profile, float(a[12]), float(c.Zmin), a[13])
-        d_ref = dr + float(a[10]) + float(a[11]) - W[i, 2] + float(a[21]) - above
+        # the library rounds the root depth to 0.01 m (half-way cases depend on the float type used): accept the value of
+        # any of the neighbouring depths
+        zr_ = max(float(a[12]), float(c.Zmin))
+        cands = [ref_root_zone(tr.profile, zr_ + dz_, 0.0, a[13]) for dz_ in (-0.01, 0.0, 0.01) if zr_ + dz_ > 0.0]
+        base_adj = float(a[10]) + float(a[11]) - W[i, 2] + float(a[21])
+        d_refs = [dr_ + base_adj - ab_ for dr_, _, ab_ in cands]
+        taws = [t_ for _, t_, _ in cands]
+        above = max(ab_ for _, _, ab_ in cands)
         tol = 0.01 * ncomp + 0.02 * above + 1e-6
-        if abs(D - d_ref) > tol or abs(T - taw) > 0.01 * ncomp + 1e-6:
+        d_ref, taw = d_refs[len(d_refs) // 2], taws[len(taws) // 2]
+        if not (min(d_refs) - tol <= D <= max(d_refs) + tol) or not (min(taws) - 0.01 * ncomp - 1e-6 <= T <= max(taws) + 0.01 * ncomp + 1e-6):
             res.fail("depletion_estimate", tag + "depletion %.6g / TAW %.6g vs reference %.6g / %.6g (root zone %.3f m)" % (D, T, d_ref, taw, max(float(a[12]), float(c.Zmin))))
             break
         want = ref_irrigation(method, True, D, T, stage, dap, eff, max_irr, smt, interval, sched.get(d, 0.0), depth, max_season, so_far)
